@@ -23,12 +23,16 @@ Inductive ulookup := UUnreachable | UStatus (code : Z).
 Inductive gbody := GBadJson | GJson (groups : option (list string)).     (* response.json().get('groups') *)
 Inductive glookup := GUnreachable | GStatus (code : Z) (body : gbody).
 Record plugin := {
-  p_slugs : bool;          (* plugin_name.startswith("auth:slugs") *)
-  p_enabled : bool;        (* plugin_config.get("enabled") == "True" *)
+  p_name : string;                 (* name of the settings block *)
+  p_enabled_text : option string;  (* plugin_config.get("enabled") *)
   p_url : url;             (* plugin_config.get("url") *)
   p_user : ulookup;        (* GET <url>/users/<cn> *)
   p_groups : glookup       (* GET <url>/users/<cn>/groups *)
 }.
+
+Definition p_slugs (p : plugin) : bool := prefix "auth:slugs" (p_name p).     (* plugin_name.startswith("auth:slugs") *)
+Definition p_enabled (p : plugin) : bool :=                                   (* plugin_config.get("enabled") == "True" *)
+  match p_enabled_text p with Some s => String.eqb s "True" | None => false end.
 
 Record cfg := {
   tls_client_auth : bool;              (* enable_tls_client_auth *)
@@ -145,7 +149,10 @@ Section Handle.
   Definition error (g : cfg) (v : Z * Z) (reason : Z) (msg : list Z) : outcome :=
     send (err_response v (now g) reason msg).
 
-  (* the tail of _handle_message_loop after a successful process_request *)
+  (* the tail of _handle_message_loop: write, compare with max_size, replace, send.  On the two paths where the
+     request could not be used (certificate refused, parse failed) the same comparison runs against the default
+     maximum with a fixed 200-byte error response, so it never fires there (EncodeProofs.fixed_errors_small) and
+     `handle` sends those directly. *)
   Definition reply (g : cfg) (rq : request) (enc : option bytes) (max : option Z) : outcome :=
     match enc with
     | None => Escaped
@@ -163,13 +170,14 @@ Section Handle.
         | None => ({| out := error g (1, 0) R_INVALID_MESSAGE MSG_PARSE; call := None |}, st)
         | Some rq =>
             match authenticate c (plugins g) with
-            | None => ({| out := error g (rq_version rq) R_AUTHENTICATION_NOT_SUCCESSFUL MSG_AUTH; call := None |}, st)
+            | None => ({| out := reply g rq (err_response (rq_version rq) (now g) R_AUTHENTICATION_NOT_SUCCESSFUL MSG_AUTH) None;
+                          call := None |}, st)
             | Some id =>
                 let (r, st') := engine rq id st in
                 ({| out := match r with
                            | EResp enc max _ => reply g rq enc max
-                           | EKmipErr reason msg => error g (rq_version rq) reason msg
-                           | ECrash => error g (rq_version rq) R_GENERAL_FAILURE MSG_GENERAL
+                           | EKmipErr reason msg => reply g rq (err_response (rq_version rq) (now g) reason msg) None
+                           | ECrash => reply g rq (err_response (rq_version rq) (now g) R_GENERAL_FAILURE MSG_GENERAL) None
                            end;
                     call := Some id |}, st')
             end
